@@ -1229,3 +1229,6 @@ package lorawan
 //@   props C01
 //@   uses registry_ok
 //@   inlines (*PHYPayload).UnmarshalBinary (*MACPayload).UnmarshalBinary (*FHDR).UnmarshalBinary (PHYPayload).MarshalBinary (MACPayload).MarshalBinary (MACPayload).marshalPayload (FHDR).MarshalBinary (MACCommand).MarshalBinary (*PHYPayload).DecodeFRMPayloadToMACCommands decodeDataPayloadToMACCommands (*MACCommand).UnmarshalBinary
+//@ func lemmaC04_joinaccept_cipher
+//@   props C04
+//@   inlines (*PHYPayload).EncryptJoinAcceptPayload (*PHYPayload).DecryptJoinAcceptPayload (JoinAcceptPayload).MarshalBinary (*JoinAcceptPayload).UnmarshalBinary
